@@ -1094,6 +1094,15 @@ def _c12(tier, seed, ses):
                               f"{tag}/state_dict/{shape}", route="state_dict " + shape, diff=d)
                     if d is None and shape == "single":
                         _compare_loaded(rep, spec, tag + "/state_dict", [root], [back])
+                        # second generation: the reloaded graph is itself a configuration graph, saving and reloading it
+                        # must give the same graph again
+                        data2 = json.loads(json.dumps(state_dict(SerializationContext(), back)))
+                        back2 = from_state_dict(data2)
+                        d2 = first_diff(canon([value]), canon([back2]))
+                        rep.check(d2 is None, "C12 graph reloaded a second time differs from the saved one", spec,
+                                  f"{tag}/state_dict/gen2", route="state_dict twice", diff=d2)
+                        if d2 is None:
+                            _compare_loaded(rep, spec, tag + "/state_dict/gen2", [root], [back2])
                 sdir = ses.fresh_dir()
                 sdir.mkdir(parents=True)
                 save([root, {"k": root}], sdir)
